@@ -51,7 +51,27 @@ var DefaultTolerations = []corev1.Toleration{
 
 // ---------------------------------------------------------------- eligibility
 
+// Malformed: a requirement the Kubernetes selector grammar rejects (the term that carries it matches nothing).
+func Malformed(r corev1.NodeSelectorRequirement) bool {
+	switch r.Operator {
+	case corev1.NodeSelectorOpIn, corev1.NodeSelectorOpNotIn:
+		return len(r.Values) == 0
+	case corev1.NodeSelectorOpExists, corev1.NodeSelectorOpDoesNotExist:
+		return len(r.Values) != 0
+	case corev1.NodeSelectorOpGt, corev1.NodeSelectorOpLt:
+		if len(r.Values) != 1 {
+			return true
+		}
+		_, err := strconv.ParseInt(r.Values[0], 10, 64)
+		return err != nil
+	}
+	return true // unknown operator
+}
+
 func matchExpr(r corev1.NodeSelectorRequirement, labels map[string]string) bool {
+	if Malformed(r) {
+		return false
+	}
 	v, has := labels[r.Key]
 	switch r.Operator {
 	case corev1.NodeSelectorOpIn:
